@@ -397,9 +397,11 @@ func init() {
 			} else {
 				op := L.metaOp1(unaryv, "__unm")
 				if op.Type() == LTFunction {
+					// as in lvm.c, the handler of a unary operation gets the operand twice
 					reg.Push(op)
 					reg.Push(unaryv)
-					L.Call(1, 1)
+					reg.Push(unaryv)
+					L.Call(2, 1)
 					// +inline-call reg.Set RA reg.Pop()
 				} else if str, ok1 := unaryv.(LString); ok1 {
 					if num, err := parseNumber(string(str)); err == nil {
